@@ -29,7 +29,7 @@ func init() {
 	core.Register(&core.Monitor{
 		ID:   "C10",
 		Race: true,
-		Rule: "a case = one conversation between two real Protocol endpoints: (a) one-way stream of 1..200 messages, (b) ping-pong with server replies sent from the handler, (c) block-fetch batches with the library's state map and codec; message sizes from {1..40, 65520..65550, 131070..131080, 1 MiB, 5 MiB, 12 MiB} and random; send timing burst/trickle/mixed; receiver read fragmentation scripts; yields/sleeps at the protocol's perturbation points. Non-trivial = at least one segment carried >1 message or one message spanned >1 segment; distinct = hash of the (messages-per-segment / segments-per-message) pattern on the wire",
+		Rule: "a case = one conversation between two real Protocol endpoints: (a) one-way stream of 1..200 messages, (b) ping-pong with server replies sent from the handler, (c) block-fetch batches with the library's state map and codec; message sizes from {1..40, 65520..65550, 131070..131080, 1 MiB, 5 MiB, 12 MiB} and random, plus messages and packed two-message batches whose encoded size is k x 65535 + d (k 1..2, d -1..1; thorough k 1..4, d -3..3) sent as the last thing of the conversation; send timing burst/trickle/mixed; receiver read fragmentation scripts; yields/sleeps at the protocol's perturbation points. Non-trivial = at least one segment carried >1 message or one message spanned >1 segment; distinct = hash of the (messages-per-segment / segments-per-message) pattern on the wire",
 		MinNontrivial: 30,
 		RaceAnchors:   []string{"protocol.(*Protocol).sendLoop", "protocol.(*Protocol).readLoop", "protocol.(*Protocol).recvLoop", "muxer.(*Muxer)"},
 		Assumptions: []string{
@@ -194,6 +194,14 @@ func run(c *core.Ctx) {
 		streamCase(c, 200000+gi, c.Rand("grid", gi), sigs, []int{3, grid[gi], 5, grid[gi], 1})
 		c.Count("grid_cases", 1)
 	}
+	// messages and packed batches whose ENCODED size ends exactly on (or next
+	// to) a multiple of the 65535-byte segment payload limit, as the LAST thing
+	// sent: nothing follows that could flush a reassembly buffer which wrongly
+	// expects a continuation after a full segment
+	for bi, sizes := range boundaryCases(c) {
+		streamCase(c, 300000+bi, c.Rand("boundary", bi), sigs, sizes)
+		c.Count("segment_boundary_cases", 1)
+	}
 	nPing := c.N(25, 2000)
 	for i := 0; i < nPing; i++ {
 		pingPongCase(c, i, c.Rand("ping", i), sigs)
@@ -203,6 +211,42 @@ func run(c *core.Ctx) {
 		blockFetchCase(c, i, c.Rand("bf", i), sigs)
 	}
 	c.Note("distinct_wire_patterns", len(sigs))
+}
+
+// payloadFor returns the payload length whose protorig encoding has exactly
+// enc bytes (ok=false where no such length exists).
+func payloadFor(enc int) (int, bool) {
+	for _, over := range []int{3, 4, 5, 7} {
+		n := enc - over
+		if n >= 0 && protorig.EncodedOverhead(n) == over {
+			return n, true
+		}
+	}
+	return 0, false
+}
+
+func boundaryCases(c *core.Ctx) [][]int {
+	var out [][]int
+	ks, ds := []int{1, 2}, []int{-1, 0, 1}
+	if c.Thorough() {
+		ks, ds = []int{1, 2, 3, 4}, []int{-3, -2, -1, 0, 1, 2, 3}
+	}
+	for _, k := range ks {
+		for _, d := range ds {
+			enc := k*65535 + d
+			if n, ok := payloadFor(enc); ok {
+				out = append(out, []int{n}, []int{3, n}, []int{n, n})
+			}
+			// a packed batch of two messages that ends on the boundary
+			for _, first := range []int{10, 30000} {
+				e1 := first + protorig.EncodedOverhead(first)
+				if n, ok := payloadFor(enc - e1); ok {
+					out = append(out, []int{first, n})
+				}
+			}
+		}
+	}
+	return out
 }
 
 // wireCheck parses one direction's tap and compares the concatenated payload of
